@@ -60,6 +60,7 @@ type Decision struct {
 	Task int32  `json:"t"`
 	Kind uint8  `json:"k,omitempty"`
 	V    int64  `json:"v,omitempty"`
+	At   uint32 `json:"at,omitempty"` // informational: the yield (site id) at which the running task was preempted; ignored on replay
 }
 
 // Config is everything the scheduler needs for one run. The harness fills it in
@@ -739,7 +740,7 @@ func switchTo(nxt int32, site uint32) {
 
 //go:norace
 func noteSwitch(from, to int32, site uint32) {
-	recordDecision(Decision{Step: step, Task: to, Kind: DSwitch})
+	recordDecision(Decision{Step: step, Task: to, Kind: DSwitch, At: site})
 	stats.Switches++
 	stats.Sig = mix64(stats.Sig ^ (uint64(from)<<40 | uint64(to)<<32 | uint64(site)))
 	if from >= 0 && inOp[from] && site < SiteOpBegin {
